@@ -435,6 +435,11 @@ func (g *Generator) generateWithoutSaving(parents []*theTypeInfo, t reflect.Type
 		}
 
 		typeName := g.generateTypeName(t)
+		if typeName == "" {
+			// an anonymous struct type has no name to export it under: all of them
+			// would collide on the component "", so it stays inline
+			return openapi3.NewSchemaRef(t.Name(), schema), nil
+		}
 
 		g.componentSchemaRefs[typeName] = struct{}{}
 		return openapi3.NewSchemaRef(fmt.Sprintf("#/components/schemas/%s", typeName), schema), nil
